@@ -240,6 +240,13 @@ fn run_case<'a>(ctx: &'a Ctx, case: u64, acc: &'a mut Acc) -> CaseFut<'a> {
             s.delete("delete { Pet{ $id } }", Some(p)).await.unwrap();
             row_ids.push(ids);
         }
+        // cross-room references: the first row of every other room refers to the first row of the member room
+        for j in 1..rooms.len() {
+            let mut p = Parameters::new();
+            p.add("id", b64(&row_ids[j][0])).unwrap();
+            p.add("target", b64(&row_ids[0][0])).unwrap();
+            let _ = s.mutate("mutate { Person{ id:$id parents:[{id:$target}] } }", Some(p)).await;
+        }
         // the requester is disabled in the "former-member" room one day later
         t += DAY;
         clock_set(t);
